@@ -1,5 +1,5 @@
 """What MANIFEST.json claims, per property (edited by hand; tools/mkmanifest.py renders it)."""
-HOOK_COMMITS = ["7ed0aad", "d8606cd", "08f1a83"]
+HOOK_COMMITS = ["7ed0aad", "d8606cd", "08f1a83", "8f24443"]
 NOTES = ("Every check rebuilds the harness against /repo's working tree and the Lean project, runs the proof stage "
          "(lake build of the property's theorem module + #print axioms audit), the model/implementation correspondence "
          "and the property oracle on the implementation. Genuine defects found are repaired by fix: commits in /repo "
